@@ -493,7 +493,7 @@ fn permutations(n: usize) -> Vec<Vec<usize>> {
 
 /// segment layouts: 1-4 segments, sizes/gaps from a small set, filesz <= memsz
 fn layouts(tier: Tier) -> Vec<Vec<Seg>> {
-    let sizes: Vec<u32> = if tier == Tier::Thorough { vec![0, 1, 3, 4, 0x71, 0x1271] } else { vec![1, 4, 0x71, 0x1271] };
+    let sizes: Vec<u32> = if tier == Tier::Thorough { vec![0, 1, 3, 4, 0x71, 0x1271] } else { vec![0, 1, 4, 0x71, 0x1271] };
     let gaps: Vec<u32> = if tier == Tier::Thorough { vec![0, 1, 3, 4, 0x71] } else { vec![0, 3, 0x71] };
     let bss: [u32; 3] = [0, 1, 0x40];
     let mut out = Vec::new();
@@ -532,6 +532,63 @@ fn layouts(tier: Tier) -> Vec<Vec<Seg>> {
                 out.push(v.clone());
                 v.push(Seg { vaddr: a + b + g, filesz: s, memsz: s + b });
                 out.push(v);
+            }
+        }
+    }
+    // empty PT_LOAD entries (filesz = memsz = 0, what a linker emits for an empty .data): at the address of another
+    // segment (listed after it and before it), at its end, inside it, and between two segments
+    let a = Seg { vaddr: 0, filesz: 0x71, memsz: 0x71 };
+    let b = Seg { vaddr: 0x100, filesz: 0x40, memsz: 0x80 };
+    let e = |v: u32| Seg { vaddr: v, filesz: 0, memsz: 0 };
+    for l in [
+        vec![a.clone(), e(0)],
+        vec![e(0), a.clone()],
+        vec![a.clone(), e(0x71)],
+        vec![a.clone(), e(0x30)],
+        vec![a.clone(), e(0), b.clone()],
+        vec![a.clone(), b.clone(), e(0x100)],
+        vec![a.clone(), e(0x100), b.clone()],
+        vec![a.clone(), b.clone(), e(0x180)],
+        vec![a.clone(), e(0), e(0), b.clone()],
+        vec![Seg { vaddr: 4, filesz: 4, memsz: 5 }, e(4)],
+        vec![Seg { vaddr: 4, filesz: 4, memsz: 5 }, e(9), e(4)],
+    ] {
+        out.push(l);
+    }
+    out
+}
+
+/// C11 only: files without a .stack section (the loader then sets up no process environment, which is C12's
+/// subject), so that segments and the GOT can reach the very last byte of DRAM.
+fn specs_top_of_dram() -> Vec<Spec> {
+    let cap: u32 = 0x20_0000 - (BASE - 0x40_0000); // bytes from the load base to the end of DRAM
+    let d = default_spec();
+    let mut out = Vec::new();
+    for below in [0u32, 1, 4, 5, 0x100] {
+        for size in [4u32, 8, 0x20, 0x71, 0x1271] {
+            for bss in [0u32, 1, 0x10] {
+                if size + bss + below > cap {
+                    continue;
+                }
+                let v = cap - below - size - bss;
+                for nents in [0usize, 1, 2, 4] {
+                    if 4 * nents as u32 > size {
+                        continue;
+                    }
+                    for got_gap in [0u32, 1, 4] {
+                        // the GOT ends `got_gap` bytes in front of the end of the segment's file contents
+                        if 4 * nents as u32 + got_gap > size {
+                            continue;
+                        }
+                        let mut s = d.clone();
+                        s.segs = vec![Seg { vaddr: 0, filesz: 0x10, memsz: 0x10 }, Seg { vaddr: v, filesz: size, memsz: size + bss }];
+                        s.file_order = vec![1, 0];
+                        s.got = if nents == 0 { None } else { Some((v + size - got_gap - 4 * nents as u32, (0..nents).map(|i| [0x10u32, 0x00be_9700, 0x1234_5678, 0x0abc][i % 4]).collect())) };
+                        s.section_order = vec![0, 1, 3, 4]; // no .stack
+                        s.seed = below * 31 + size + bss;
+                        out.push(s);
+                    }
+                }
             }
         }
     }
@@ -727,16 +784,24 @@ pub fn specs(tier: Tier) -> Vec<Spec> {
     out
 }
 
+fn specs_for(prop: &str, tier: Tier) -> Vec<Spec> {
+    let mut all = specs(tier);
+    if prop == "C11" {
+        all.extend(specs_top_of_dram());
+    }
+    all
+}
+
 fn elf_units(prop: &'static str, tier: Tier) -> Vec<Unit> {
-    let all = specs(tier);
+    let all = specs_for(prop, tier);
     let n = all.len() as u64;
     let chunks = 64u64.min(n);
     let dom = format!(
-        "{} generated ELF32-BE files, factorised so that each factor is a full product around a default layout: segment layouts (1-4 PT_LOAD, sizes/gaps from a small set incl. 0/1/3/4/0x71/0x1271, filesz <= memsz, file offsets not in address order), 0-2 non-load program headers in every position incl. last, all 120 orders of .shstrtab/.got/.stack/.symtab/.strtab x filler sections, .got of 0-3 and 64 entries at aligned/unaligned positions with carrying values, stack sizes 0-64 KiB, symbol tables of 1-200 symbols with ___exit first/middle/last among decoys, argument strings (all separator patterns x 0-3 words, 32 words, every printable ASCII character)",
+        "{} generated ELF32-BE files, factorised so that each factor is a full product around a default layout: segment layouts (1-4 PT_LOAD, sizes/gaps from a small set incl. 0/1/3/4/0x71/0x1271, filesz <= memsz, file offsets not in address order), 0-2 non-load program headers in every position incl. last, all 120 orders of .shstrtab/.got/.stack/.symtab/.strtab x filler sections, .got of 0-3 and 64 entries at aligned/unaligned positions with carrying values, stack sizes 0-64 KiB, empty PT_LOAD entries sharing an address with / inside / between other segments, (C11 only: files without .stack whose last segment and GOT reach the last bytes of DRAM), symbol tables of 1-200 symbols with ___exit first/middle/last among decoys and names that extend ___exit, argument strings (all separator patterns x 0-3 words, 32 words, every printable ASCII character)",
         n
     );
     vec![Unit::new("files", chunks, &dom, move |ctx, chunk| {
-        let all = specs(tier);
+        let all = specs_for(prop, tier);
         let (lo, hi) = chunk_range(all.len() as u64, chunks, chunk);
         let mut ld = Loader::new(&format!("{}-{}", prop, chunk));
         for k in lo as usize..hi as usize {
